@@ -168,7 +168,7 @@ func (c *runner) exhaustive() error {
 					model := rs.Xs[si+1].Xs[1].S
 					pairs++
 					if impl != model {
-						c.out.Add(res.Finding{Kind: "corr", Op: "corr:match", Input: fmt.Sprintf("sel=%s tree=%s", strconv.Quote(p.text), treeText(trees[t0+ti])),
+						c.add(res.Finding{Kind: "corr", Op: "corr:match", Input: fmt.Sprintf("sel=%s tree=%s", strconv.Quote(p.text), treeText(trees[t0+ti])),
 							Impl: impl, Model: model, Reason: "exhaustive enumeration: match bits per node differ", Key: "exhaustive"})
 					}
 				}
